@@ -86,6 +86,9 @@ def class_source(name, feats, prev):
     L.append("\tfn twice(self, d: int) -> int {\n\t\ta = self.add(d)\n\t\tb = self.add(d)\n\t\treturn a + b\n\t}")
     L.append("\tfn me(self) -> Self {\n\t\treturn self\n\t}")
     L.append("\tfn fresh(self) -> Self {\n\t\treturn Self(self.n + 100%s)\n\t}" % (", 3, 4" if "c2" in feats else ""))
+    # eleven parameters: argument indexes of two digits
+    L.append("\tfn wide(self, a1: int, a2: int, a3: int, a4: int, a5: int, a6: int, a7: int, a8: int, a9: int, a10: int, a11: int) -> int {\n"
+             "\t\tself.n = a9 + a10 * 10 + a11 * 100 + a1 * 1000\n\t\treturn self.n\n\t}")
     L.append("\tfn add2(self, x: int, y: int) -> int {\n\t\tself.n += x * 10 + y\n\t\treturn self.n\n\t}")
     if "clo" in feats:
         # closures made by a method: one names a field of the object directly, one goes through a local alias of self
@@ -121,6 +124,7 @@ def class_source(name, feats, prev):
         L.append("\tfn clearo(self) {\n\t\tself.o = nil\n\t}")
     if "xs" in feats:
         L.append("\tfn sharexs(self, x: Self) {\n\t\tself.xs = x.xs\n\t}")
+        L.append("\tfn absorb(self, x: Self) {\n\t\tself.xs.join(x.xs)\n\t}")
         L.append("\tfn copyxs(self, x: Self) {\n\t\tself.xs = x.xs.clone()\n\t}")
     if "cur" in feats:
         L.append("\tfn swapcur(self, x: Self) -> int {\n\t\tself.cur = x\n\t\treturn 1\n\t}")
@@ -157,6 +161,7 @@ class Interp:
     def __init__(self, classes, in_lib=False):
         self.em = Emitter()
         self.lib = Emitter() if in_lib else None
+        self.modform = False
         self.classes = classes          # list of (name, feats list)
         self.feats = {c[0]: set(c[1]) for c in classes}
         self.prev = {}
@@ -169,7 +174,15 @@ class Interp:
         for name, feats in classes:
             self.prev[name] = prev
             src = class_source(name, set(feats), prev)
-            if in_lib:
+            if in_lib == "mod":
+                # the class lives in an imported module and the importer knows the MODULE only (`import lib`, `lib.K(..)`):
+                # no name of the class is bound on the importer's side (and none of its types can be written there)
+                cls_src, helper = src.split("\ntake_", 1)
+                self.lib.code("export " + cls_src)
+                if not self.modform:
+                    self.em.code("import lib")
+                self.modform = True
+            elif in_lib:
                 # the class lives in an imported module; the helper that takes and returns it stays in the importer
                 cls_src, helper = src.split("\ntake_", 1)
                 self.lib.code("export " + cls_src)
@@ -198,9 +211,10 @@ class Interp:
         return o
 
     def ctor(self, cls, nexpr, t=1, u=2):
+        q = ("lib." + cls) if self.modform else cls
         if "c2" in self.feats[cls]:
-            return "%s(%s, %d, %d)" % (cls, nexpr, t, u)
-        return "%s(%s)" % (cls, nexpr)
+            return "%s(%s, %d, %d)" % (q, nexpr, t, u)
+        return "%s(%s)" % (q, nexpr)
 
     def fresh_var(self, o):
         name = "v%d" % self.n
@@ -220,7 +234,7 @@ class Interp:
             f = self.feats[o.cls]
             em.code("print %s.n" % name)
             em.out(str(o.n))
-            if "peer" in f and self.step % 2 == 0:
+            if "peer" in f and self.step % 2 == 0 and not self.modform:
                 # the optional class-typed field, read with `?=` into the one work variable of the class
                 w = "w_%s" % o.cls
                 if o.cls not in self.wdecl:
@@ -251,6 +265,8 @@ class Interp:
             name = self.fresh_var(o)
             em.code("%s = %s" % (name, self.ctor(op["cls"], str(op["n"]), t, u)))
             return True
+        if self.modform and (k in ("bulk_new", "take", "mklist", "regput") or (k == "call" and op.get("m") == "peekpeer")):
+            return False      # these need the class's type name, which an importer of the module alone cannot write
         if k == "bulk_new":
             # many objects constructed in a loop and kept in a list; one of them is fetched afterwards
             cls = op["cls"]
@@ -425,6 +441,17 @@ class Interp:
                     if "xs" in self.feats[o.cls]:
                         o.xs.append(d)
                     em.out(str(o.n))
+            elif m == "wide":
+                vals = [(op["v"] + q) % 10 for q in range(11)]
+                em.code("print %s.wide(%s)" % (an, ", ".join(str(x) for x in vals)))
+                a.n = vals[8] + vals[9] * 10 + vals[10] * 100 + vals[0] * 1000
+                em.out(str(a.n))
+            elif m == "absorb":
+                # the receiver's list takes the elements of the argument's list — which may be the very same list
+                if "xs" not in f or b is None or b.cls != a.cls:
+                    return False
+                em.code("%s.absorb(%s)" % (an, op["b"]))
+                a.xs.extend(list(b.xs))
             elif m == "copyxs":
                 # an independent copy of the other object's list, also when that list is empty
                 if "xs" not in f or b is None or b.cls != a.cls:
@@ -723,7 +750,7 @@ class Interp:
 
 METHODS = ["getn", "setn", "resetn", "add", "twice", "me", "fresh", "chain", "swapn", "sets", "cat", "size", "resize", "seto",
            "clearo", "link", "peern", "bumppeer", "getpeer", "attach", "othern", "copyfrom", "copyfrom", "getme", "toggle", "toggle", "negn", "grow", "both", "drain", "chainfresh", "chainpeer", "sharexs", "sharexs",
-           "resize", "flip", "flip", "addf", "sumread", "sumread", "curadd", "curadd", "curn", "setcur", "getcur", "add2", "add2", "mkclo", "mkclo", "callclo", "callclo", "callclo", "peekpeer", "peekpeer", "peekpeer", "popfront", "popfront", "popfront", "copyxs", "copyxs", "negread", "negread", "peeris", "peeris", "peeris"]
+           "resize", "flip", "flip", "addf", "sumread", "sumread", "curadd", "curadd", "curn", "setcur", "getcur", "add2", "add2", "mkclo", "mkclo", "callclo", "callclo", "callclo", "peekpeer", "peekpeer", "peekpeer", "popfront", "popfront", "popfront", "copyxs", "copyxs", "negread", "negread", "peeris", "peeris", "peeris", "wide", "wide", "absorb", "absorb"]
 
 
 def gen_op(rng, it):
@@ -745,7 +772,7 @@ def gen_op(rng, it):
         op["m"] = rng.choice(focus) if focus and rng.chance(3, 5) else rng.choice(METHODS)
         op["t"] = rng.choice(STRS)
         op["b"] = rng.choice(names)
-        if op["m"] in ("swapn", "link", "copyfrom", "sharexs", "curadd", "setcur", "peekpeer", "copyxs", "peeris"):
+        if op["m"] in ("swapn", "link", "copyfrom", "sharexs", "curadd", "setcur", "peekpeer", "copyxs", "peeris", "absorb"):
             op["b"] = rng.choice(same)
     elif kind in ("rebind", "rebindpeer"):
         op["b"] = rng.choice(same)
@@ -789,7 +816,7 @@ def step(it, op):
 
 def generate(rng, max_ops=15):
     classes = gen_classes(rng)
-    in_lib = rng.chance(1, 4)
+    in_lib = rng.weighted([(False, 6), (True, 2), ("mod", 1)])
     it = Interp(classes, in_lib)
     if rng.chance(1, 2):
         it.focus = rng.sample(sorted(set(METHODS)), 3) + ["link", "add"]
@@ -806,7 +833,7 @@ def generate(rng, max_ops=15):
 
 
 def render(spec):
-    it = Interp(spec["classes"], bool(spec.get("lib")))
+    it = Interp(spec["classes"], spec.get("lib") or False)
     for op in spec["ops"]:
         if step(it, op):
             it.observe()
